@@ -45,6 +45,10 @@ w("related properties where relevant) is run against the patched tree through `V
 w("itself is never modified, so concurrent runs are not disturbed). After a check was strengthened the change was run")
 w("again with `tools/recheck_seed.py` (first results kept in `meta.json: checks_first`). `seeded/<id>/` holds `patch.diff`,")
 w("`demo.py`, `notes.md` (the author's description) and `meta.json` (what it breaks, what it needs, what was run, results).")
+w("Every change was confirmed at the /repo head of its round (`meta.json: repo_head`). At the end of round 9 all 360 were run again against")
+w("the checks as they stand (`repo_head_recheck`); the `fix:` commits made since then touch lines some patches change: those patches were rebased")
+w("with `tools/rebase_seed.py` (`git apply -3`, demonstration confirmed again, original kept as `patch_at_<head>.diff`) or, where the rebase")
+w("conflicts, are marked `patch_applies_at_head: false` and keep the results obtained at their own head.")
 w()
 for rnd in sorted({m["round"] for m in metas.values()}):
     ms = [m for m in metas.values() if m["round"] == rnd]
